@@ -30,6 +30,39 @@ template <> struct El<Tracked>
     static int get(const Tracked &x) { return x.get(); }
 };
 
+// An element that is itself a vector of the implementation under test: value x is held as x+1 ints equal to x, so
+// every element copy / move / assignment of the outer vector runs the inner vector's own copy / move / assignment
+// (self-assignment included, e.g. erase of an empty range moves elements onto themselves) and a lost or emptied inner
+// vector reads back as a wrong value.
+template <class IV> struct Nest
+{
+    IV body;
+    Nest() : Nest(0) {}
+    explicit Nest(int x)
+    {
+        for (int k = 0; k <= x; k++)
+            body.push_back(x);
+    }
+    int get() const
+    {
+        int n = (int)body.size();
+        if (n == 0)
+            return -1000;
+        for (int k = 0; k < n; k++)
+            if (body[(size_t)k] != n - 1)
+                return -2000 - k;
+        return n - 1;
+    }
+    bool operator==(const Nest &o) const { return get() == o.get(); }
+    bool operator!=(const Nest &o) const { return get() != o.get(); }
+    bool operator<(const Nest &o) const { return get() < o.get(); }
+};
+template <class IV> struct El<Nest<IV>>
+{
+    static constexpr bool tracked = false;
+    static int get(const Nest<IV> &x) { return x.get(); }
+};
+
 inline std::string show(const std::vector<int> &v)
 {
     std::string s = "[";
@@ -423,6 +456,10 @@ template <class V, class T, class Api = ApiPrimary> struct VecRun
             else if constexpr (Api::host_iter_range_ctor)
                 slot[i] = new V(foreign.begin(), foreign.end());
             m = src;
+            // constructing from a range copies: the source elements keep their values
+            for (size_t k = 0; k < src.size(); k++)
+                VP_CHECK(El<T>::get(foreign[k]) == src[k], "vec_range_ctor_source", "%s: source element %zu reads %d afterwards, it was %d", name, k,
+                         El<T>::get(foreign[k]), src[k]);
             break;
         }
         case 19:
